@@ -393,7 +393,54 @@ def run(chk):
         for sig, what, rep in r['viol']:
             chk.violation(sig, what, rep)
     chk.cov['traces_validated_against_impl'] = sum(r['n'] for r in results)
+    run_security(chk)
     return
+
+
+def security_monitor(spec, M, outs):
+    ''' security policy on: the size bound must hold for what reaches the CL (implementation only) '''
+    bad = []
+    for o in outs:
+        if M is not None and len(o) > M and not (spec['flags'] & 5):
+            try:
+                p = fl.read_bundle(o)
+            except fl.ParseError:
+                continue
+            if p['primary']['flags'] & 1:
+                nsec = sum(1 for b in p['blocks'] if b['type'] in (11, 12))
+                bad.append(('C05:security-grows-fragment',
+                            'security association active: fragment of %d octets > MTU %d (%d security block(s) added when the '
+                            'fragment re-entered the BPSec steps)' % (len(o), M, nsec)))
+    return bad
+
+
+def run_security(chk):
+    ''' D21: with a security association each fragment re-enters the BIB step (order 10 < 20) and grows.
+    Implementation-side only (the model takes the security step as a parameter; Props/C05 has the
+    counterexample for a growing step). '''
+    try:
+        rig = fl.Rig()
+        rig.enable_security()
+    except Exception as err:   # pycose keys unavailable: say so, do not pretend
+        chk.notes.append('security-on stream skipped: %r' % (err,))
+        chk.count('security-on:skipped')
+        return
+    rng = chk.rng
+    n = 12 if chk.tier == 'quick' else 120
+    for i in range(n):
+        L = rng.choice([300, 500, 1000, 3000])
+        spec = mk_spec(L, rng.choice(CRCS), rng.choice([0, 1, 2]), salt=i)
+        ref, esc, _ = rig.send(spec, None)
+        if len(ref) != 1:
+            chk.count('security-on:no-reference')
+            continue
+        M = rng.randrange(len(ref[0]) // 3, len(ref[0]))
+        outs, esc, idle = rig.send(spec, M)
+        chk.case(['sec', L, M, spec['crc'], len(spec['blocks'])], nontrivial=True)
+        chk.count('security-on:sends')
+        for sig, what in security_monitor(spec, M, outs):
+            chk.count('monitor:' + sig)
+            chk.violation(sig, what, {'spec': spec, 'mtu': M, 'security': 'hmac256-bib-on-payload'})
 
 
 def replay(chk, path):
@@ -401,9 +448,14 @@ def replay(chk, path):
     rep = obj.get('replay', obj)
     spec, m = rep['spec'], rep['mtu']
     rig = fl.Rig()
+    if rep.get('security'):
+        rig.enable_security()
     ref = rig.send(spec, None)[0]
     routs, resc, ridle = rig.send(spec, m)
-    viol = monitors(spec, m, ref[0] if len(ref) == 1 else None, routs) if len(ref) == 1 else []
+    if rep.get('security'):
+        viol = security_monitor(spec, m, routs)
+    else:
+        viol = monitors(spec, m, ref[0] if len(ref) == 1 else None, routs) if len(ref) == 1 else []
     print('input: payload %d octets, MTU %s, wire=%s' % (pay_len(spec), m, spec.get('wire')))
     print('reference (no MTU): %s octets' % [len(x) for x in ref])
     print('handed to the CL: %s' % [(len(x), x.hex() if len(x) < 200 else x[:60].hex() + '…') for x in routs])
